@@ -10,7 +10,6 @@ var commonAssumptions = []string{
 	"seeded search samples schedules and fault scripts: a clean batch is evidence, not proof",
 }
 
-
 func (c *propCfg) mustReach() []string { return c.Must }
 
 var props = map[string]*propCfg{
